@@ -166,7 +166,11 @@ class ScriptedScheduler(BaseScheduler):
                     continue
                 name, graph = d["task"].split("@", 1)
                 tg = workload.get_task_graph(graph)
-                t = tg.get_task(name) if tg is not None else None
+                if "ts" in d and tg is not None:
+                    # trace-replay graphs hold one task per operator and timestamp
+                    t = next((x for x in tg.get_nodes() if x.name == name and x.timestamp == d["ts"]), None)
+                else:
+                    t = tg.get_task(name) if tg is not None else None
                 if t is None or t.state not in (TaskState.VIRTUAL, TaskState.RELEASED, TaskState.SCHEDULED):
                     continue
                 if t.id not in offered_ids and not d.get("force"):
